@@ -503,5 +503,132 @@ C12(T) ==
                                                 /\ T.ev[i].exc = "none" /\ T.ev[i].pre.step \in {"RECEIVING_FILE_DATA", "RECV_FILE_DATA_WITH_CHECK_LIMIT_HANDLING"}
                                                 /\ ~\E c \in cancels : T.ev[c].side = "D" /\ T.ev[c].ret = "true" /\ T.ev[c].pre.tseq = T.ev[i].pre.tseq } }
 
-Violations(T) == C01(T) \cup C02(T) \cup C03(T) \cup C10(T) \cup C07(T) \cup C08(T) \cup C19(T) \cup C05(T) \cup C06(T) \cup C15(T) \cup C12(T)
+\* ===== C13: unacknowledged transfers tolerate EOF overtaking file data up to the check limit =====
+\* The observer follows the check timer from the clock: it starts at the call that accepted the EOF while data was
+\* outstanding and restarts at every expiry; an expiry = a destination call at which now - start >= interval.
+\* the checksum type announced by the Metadata PDU of the transaction running at event i
+TxnChk(T, i) == LET mds == { j \in 1..i : T.ev[j].side = "D" /\ T.ev[j].call = "fsm" /\ T.ev[j].arg.t = "MD" /\ T.ev[j].exc = "none"
+                                         /\ \E k \in DOMAIN T.ev[j].ind : T.ev[j].ind[k].k = "metadata_recv" } IN
+                IF mds = {} THEN T.cfg.chk ELSE T.ev[LastIdx(mds)].arg.chkType
+DstFileOk(T, i, fs, chk, size) ==
+  TxnChk(T, i) = "NULL" \/ \E j \in DOMAIN fs : fs[j].p = DstPathT(T) /\ ~fs[j].dir /\ FileChecksum(TxnChk(T, i), fs[j].d, size) = chk
+C13Walk(T, i) ==   \* i: the event that accepted an EOF (no error) in unacknowledged mode and entered check-limit handling
+  LET eof == T.ev[i].arg
+      later == SetToSortSeq({ j \in OfSide(T, "D") : j > i }, <)
+      \* st = [on, start, n (expiries so far), v (violations)]
+      step(st, j) ==
+        LET e == T.ev[j] IN
+        IF ~st.on \/ e.call # "fsm" \/ e.pre.step # "RECV_FILE_DATA_WITH_CHECK_LIMIT_HANDLING" \/ e.pre.tseq # T.ev[i].post.tseq
+        THEN [st EXCEPT !.on = st.on /\ e.pre.state = "BUSY" /\ e.pre.tseq = T.ev[i].post.tseq /\ e.call # "reset"]
+        ELSE IF e.exc # "none" \/ (e.arg.t = "EOF")  \* a refused PDU does not run the procedure; a second EOF restarts the episode
+        THEN [st EXCEPT !.on = e.exc # "none"]
+        ELSE
+        IF \E k \in DOMAIN e.flt : e.flt[k].cond \notin {"CHECK_LIMIT_REACHED", "FILE_CHECKSUM_FAILURE"}
+        THEN [st EXCEPT !.on = FALSE]    \* another fault (file size error, filestore rejection) decides this call
+        ELSE
+        LET expired == e.now - st.start >= T.cfg.chkInt
+            complete == DstFileOk(T, i, e.fs, eof.chk, eof.size)
+            limitFlt == \E k \in DOMAIN e.flt : e.flt[k].cond = "CHECK_LIMIT_REACHED"
+            finGood == \E k \in DOMAIN e.ind : e.ind[k].k = "finished" /\ e.ind[k].cond = "NO_ERROR" /\ e.ind[k].deliv = "DATA_COMPLETE"
+            finAny == \E k \in DOMAIN e.ind : e.ind[k].k = "finished"
+            B(c) == {V("C13", c, j, Kf(T), "", "")} IN
+        IF ~expired THEN
+           [st EXCEPT !.v = @ \cup (IF limitFlt THEN B("check-limit-fault-before-the-timer-expired") ELSE {})
+                                 \cup (IF finAny /\ e.post.state = "IDLE" /\ e.flt = <<>> /\ ~\E k \in 1..j : T.ev[k].call = "cancel" /\ T.ev[k].side = "D"
+                                       THEN B("transaction-finished-before-a-check-timer-expiry") ELSE {}),
+                      !.on = e.post.step = "RECV_FILE_DATA_WITH_CHECK_LIMIT_HANDLING"]
+        ELSE IF complete THEN
+           [st EXCEPT !.on = FALSE,
+                      !.v = @ \cup (IF limitFlt THEN B("check-limit-fault-although-the-file-is-complete") ELSE {})
+                              \cup (IF T.cfg.indD.finished /\ ~finGood /\ T.cfg.fhD["FILE_CHECKSUM_FAILURE"] = "ignore" THEN B("complete-file-not-reported-successful-at-the-expiry") ELSE {})]
+        ELSE IF st.n + 1 >= T.cfg.chkLim THEN
+           [st EXCEPT !.on = FALSE,
+                      !.v = @ \cup (IF ~limitFlt /\ T.cfg.fhD["FILE_CHECKSUM_FAILURE"] = "ignore" THEN B("no-check-limit-fault-at-the-limit-th-expiry") ELSE {})
+                              \cup (IF finGood THEN B("incomplete-file-reported-successful") ELSE {})]
+        ELSE [st EXCEPT !.n = @ + 1, !.start = e.now,
+                        !.v = @ \cup (IF limitFlt THEN B("check-limit-fault-before-the-limit-th-expiry") ELSE {})
+                                \cup (IF finGood THEN B("incomplete-file-reported-successful") ELSE {})]
+  IN FoldLeft(step, [on |-> TRUE, start |-> T.ev[i].now, n |-> 0, v |-> {}], later).v
+C13(T) ==
+  IF ~Has(T, "C13") THEN {} ELSE
+  \* receiver: EOF overtaking data does not finish the transaction at once ...
+  UNION { (IF \E k \in DOMAIN T.ev[i].ind : T.ev[i].ind[k].k = "finished" THEN {V("C13", "finished-at-the-eof-although-data-is-outstanding", i, Kf(T), "", "")} ELSE {})
+          \cup C13Walk(T, i)
+          : i \in { i \in OfSide(T, "D") : /\ T.ev[i].call = "fsm" /\ T.ev[i].arg.t = "EOF" /\ T.ev[i].arg.cond = "NO_ERROR" /\ T.ev[i].arg.h.mode = "UNACK"
+                                           /\ T.ev[i].exc = "none" /\ T.ev[i].pre.step = "RECEIVING_FILE_DATA"
+                                           /\ T.ev[i].post.step = "RECV_FILE_DATA_WITH_CHECK_LIMIT_HANDLING" } }
+  \* ... and an EOF for an incomplete file must not complete the transfer successfully
+  \cup { V("C13", "incomplete-file-reported-successful-at-the-eof", i, Kf(T), "", "") :
+         i \in { i \in OfSide(T, "D") : /\ T.ev[i].call = "fsm" /\ T.ev[i].arg.t = "EOF" /\ T.ev[i].arg.cond = "NO_ERROR" /\ T.ev[i].arg.h.mode = "UNACK"
+                                          /\ T.ev[i].exc = "none" /\ T.ev[i].pre.step = "RECEIVING_FILE_DATA" /\ TxnChk(T, i) \in {"CRC32", "CRC32C"}
+                                          /\ (\E k \in DOMAIN T.ev[i].ind : T.ev[i].ind[k].k = "finished" /\ T.ev[i].ind[k].cond = "NO_ERROR" /\ T.ev[i].ind[k].deliv = "DATA_COMPLETE")
+                                          /\ ~DstFileOk(T, i, T.ev[i].fs, T.ev[i].arg.chk, T.ev[i].arg.size) } }
+  \* sender with closure: no Finished PDU before the check timer expires => Check Limit Reached
+  \cup UNION { LET e0 == T.ev[i]
+                   later == { j \in OfSide(T, "S") : j > i /\ T.ev[j].call = "fsm" /\ T.ev[j].pre.tseq = e0.post.tseq
+                                                     /\ T.ev[j].pre.step = "WAITING_FOR_FINISHED" /\ T.ev[j].exc = "none" /\ T.ev[j].arg.t = "none" }
+                   early == { j \in later : T.ev[j].now - e0.now < T.cfg.chkInt }
+                   late == { j \in later : T.ev[j].now - e0.now >= T.cfg.chkInt } IN
+               { V("C13", "sender-check-limit-fault-before-the-timer-expired", j, Kf(T), "", "") :
+                 j \in { j \in early : \E k \in DOMAIN T.ev[j].flt : T.ev[j].flt[k].cond = "CHECK_LIMIT_REACHED" } }
+               \cup (IF late # {} /\ (\A j \in later : j < NextIdx(late) => T.ev[j].post.step = "WAITING_FOR_FINISHED")
+                        /\ ~\E k \in DOMAIN T.ev[NextIdx(late)].flt : T.ev[NextIdx(late)].flt[k].cond = "CHECK_LIMIT_REACHED"
+                     THEN {V("C13", "sender-no-check-limit-fault-at-the-expiry", NextIdx(late), Kf(T), "", "")} ELSE {})
+               : i \in { i \in OfSide(T, "S") : /\ T.ev[i].call = "fsm" /\ T.ev[i].exc = "none" /\ T.ev[i].post.step = "WAITING_FOR_FINISHED"
+                                                /\ \E k \in DOMAIN T.ev[i].out : T.ev[i].out[k].t = "EOF" /\ T.ev[i].out[k].cond = "NO_ERROR"
+                                                                                 /\ T.ev[i].out[k].h.mode = "UNACK" } }
+
+\* ===== C14: declared faults take the effect configured in the fault-handler table =====
+TableConds == {"POSITIVE_ACK_LIMIT_REACHED", "KEEP_ALIVE_LIMIT_REACHED", "INVALID_TRANSMISSION_MODE", "FILESTORE_REJECTION",
+               "FILE_CHECKSUM_FAILURE", "FILE_SIZE_ERROR", "NAK_LIMIT_REACHED", "INACTIVITY_DETECTED", "CHECK_LIMIT_REACHED",
+               "UNSUPPORTED_CHECKSUM_TYPE", "CANCEL_REQUEST_RECEIVED"}
+\* a cancellation is already in progress before event i on that side (then any further fault abandons: CFDP 4.11.2.2.3 / 4.11.2.3.3)
+CancelInProgress(T, i, side, seq) ==
+  \E j \in 1..(i - 1) : /\ T.ev[j].side = side
+                        /\ \/ (T.ev[j].call = "cancel" /\ T.ev[j].ret = "true" /\ T.ev[j].pre.tseq = seq)
+                           \/ \E k \in DOMAIN T.ev[j].flt : T.ev[j].flt[k].k = "cancel" /\ T.ev[j].flt[k].tid.seq = seq
+                           \/ \E k \in DOMAIN T.ev[j].out : T.ev[j].out[k].h.qv = seq /\ T.ev[j].out[k].t \in {"EOF", "FIN"} /\ T.ev[j].out[k].cond # "NO_ERROR"
+                           \/ (T.ev[j].call = "fsm" /\ T.ev[j].arg.t = "EOF" /\ T.ev[j].arg.cond # "NO_ERROR" /\ T.ev[j].exc = "none" /\ T.ev[j].arg.h.qv = seq)
+C14(T) ==
+  IF ~Has(T, "C14") THEN {} ELSE
+  UNION { LET e == T.ev[i]
+              tbl == IF e.side = "S" THEN T.cfg.fhS ELSE T.cfg.fhD
+              B(c, f) == {V("C14", c, i, Kf(T), f.cond, f.k)} IN
+          UNION { LET f == e.flt[k]
+                      code == tbl[f.cond]
+                      inProgress == CancelInProgress(T, i, e.side, f.tid.seq)
+                      exempt == f.k = "abandon" /\ inProgress IN
+                  (IF ~exempt /\ f.k # code THEN B("callback-kind-differs-from-the-configured-handler-code", f) ELSE {})
+                  \cup (IF ~f.tid.set \/ f.tid.seq # e.pre.tseq THEN B("callback-with-wrong-or-missing-transaction-id", f) ELSE {})
+                  \cup (IF \E m \in DOMAIN e.flt : m # k /\ e.flt[m].cond = f.cond /\ ~exempt /\ ~(e.flt[m].k = "abandon" /\ inProgress)
+                        THEN B("more-than-one-callback-for-one-fault", f) ELSE {})
+                  \* the effect
+                  \cup (IF ~exempt /\ f.k = "ignore" /\ code = "ignore" /\ e.post.state # "BUSY" /\ e.exc = "none"
+                           /\ (~\E m \in DOMAIN e.flt : e.flt[m].k # "ignore")
+                           /\ ~(e.side = "D" /\ \E m \in DOMAIN e.ind : e.ind[m].k = "finished")
+                        THEN B("ignored-fault-ended-the-transaction", f) ELSE {})
+                  \cup (IF ~exempt /\ f.k = "abandon" /\ code = "abandon" /\ (e.post.state # "IDLE" \/ e.exc # "none")
+                        THEN B("abandoned-transaction-not-idle-or-call-raised", f) ELSE {})
+                  \cup (IF ~exempt /\ ~inProgress /\ f.k = "cancel" /\ code = "cancel" /\ e.side = "S" /\ e.exc = "none"
+                           /\ (~\E m \in DOMAIN e.out : e.out[m].t = "EOF" /\ e.out[m].cond = f.cond)
+                        THEN B("cancelling-fault-without-eof-carrying-the-condition", f) ELSE {})
+                  \cup (IF ~exempt /\ ~inProgress /\ f.k = "cancel" /\ code = "cancel" /\ e.side = "D" /\ e.exc = "none"
+                           /\ (~\E j \in i..Len(T.ev) : /\ T.ev[j].side = "D"
+                                                        /\ \/ \E m \in DOMAIN T.ev[j].ind : T.ev[j].ind[m].k = "finished" /\ T.ev[j].ind[m].cond = f.cond
+                                                           \/ \E m \in DOMAIN T.ev[j].out : T.ev[j].out[m].t = "FIN" /\ T.ev[j].out[m].cond = f.cond)
+                           /\ (\E j \in (i + 1)..Len(T.ev) : T.ev[j].side = "D" /\ T.ev[j].call = "fsm" /\ T.ev[j].exc = "none")
+                           /\ (T.cfg.indD.finished \/ e.post.step # "IDLE")
+                        THEN B("cancelling-fault-not-reported-to-user-or-peer", f) ELSE {})
+                  : k \in DOMAIN e.flt }
+          \cup (IF \E k \in DOMAIN e.ind : ~e.ind[k].tid.set THEN {V("C14", "indication-refers-to-a-missing-transaction-id", i, Kf(T), "", "")} ELSE {})
+          : i \in Calls(T) }
+\* the configuration API: set_handler refuses exactly the conditions outside the table (T.kind = "fhtable": one event per attempt)
+C14Table(T) ==
+  IF T.kind # "fhtable" THEN {} ELSE
+  { V("C14", "set-handler-accepts-or-refuses-the-wrong-condition", i, "none", T.ev[i].cond, T.ev[i].exc) :
+    i \in { i \in DOMAIN T.ev : (T.ev[i].exc = "ValueError") # (T.ev[i].cond \notin TableConds) \/ T.ev[i].exc \notin {"none", "ValueError"} } }
+  \cup { V("C14", "configured-code-not-returned-by-the-table", i, "none", T.ev[i].cond, T.ev[i].got) :
+    i \in { i \in DOMAIN T.ev : T.ev[i].exc = "none" /\ T.ev[i].got # T.ev[i].code } }
+
+Violations(T) == C01(T) \cup C02(T) \cup C03(T) \cup C10(T) \cup C07(T) \cup C08(T) \cup C19(T) \cup C05(T) \cup C06(T) \cup C15(T) \cup C12(T) \cup C13(T) \cup C14(T) \cup C14Table(T)
 ====
